@@ -415,6 +415,13 @@ theorem union_allows_eq_plain_partial (rs : List RC) (hok : UnionOK rs) (p : Ver
     ∀ inv, VC.inverted rs = .ok inv → inv.allowsPlain p = !(VC.union rs).allowsPlain p :=
   ⟨union_allows_eq_plain rs hok p hp hreg b h, fun inv hinv => (inverted_sem rs hok inv hinv).2.2 p hp hreg⟩
 
+/-- **`VersionUnion.allows` never raises and is the disjunction over the members, for every version**, when no
+bound of the union is a local build (then `_inverted` always returns, and an excluded single version — a bound —
+is never local, so the special path is not taken). -/
+theorem union_allows (rs : List RC) (hok : UnionOK rs) (hN : NoLocal (boundsOf rs)) (v : Version) :
+    VC.allows (.union rs) v = .ok ((VC.union rs).allowsPlain v) ∧ ∃ inv, VC.inverted rs = .ok inv :=
+  ⟨union_allows_total rs hok hN v, inverted_total rs hok hN⟩
+
 def exU : List RC :=
   [.rng ⟨none, some (Version.mk' 0 [1, 0] none none none (some ["local"])), false, false⟩,
    .rng ⟨some (Version.mk' 0 [1, 0] none none none (some ["local"])), none, false, false⟩]
